@@ -30,7 +30,7 @@ KNOWN_POOL = [
 RARE_POOL = [["p.*", "*"], [".rel.x", "x"], ["..up", "up"], ["q.r.*", "*"]]
 MAND_POOL = [["__future__.division", "division"], ["__future__.annotations", "annotations"],
              ["os", "os"], ["p.m.f", "f"], ["q.r", "r"], ["p.m", "p.m"], ["numpy", "np"]]
-STAR_FORGET = [["p.*", "*"], ["p.m.*", "*"], ["q.*", "*"], ["xml.*", "*"], ["xml.dom.*", "*"]]
+STAR_FORGET = [["p.*", "*"], ["p.m.*", "*"], ["q.*", "*"], ["xml.*", "*"], ["xml.dom.*", "*"], ["os.*", "*"], ["old.*", "*"]]
 CANON_NAMES = ["p.m.f", "q.r", "old.name", "new.name", "p.m", "os.path.join", "q.r.f", "numpy", "np2", "xml.dom", "os", "p.m.g"]
 
 
@@ -72,8 +72,11 @@ def gen_forget(rng):
                 out.append([fn, fn])
         elif r < 0.90:
             # the Import a canonical key/value stands for: Import("a.b") == from a import b
+            # … or, for a dotted name, `import a.b` (C12-4: the canonical map must lose the entry for both spellings)
             n = rng.choice(CANON_NAMES)
             imp = [n, n.split(".")[-1]]
+            if "." in n and rng.random() < 0.4:
+                imp = [n, n]
             out.append(imp if not d15_prone(imp) else list(rng.choice(_EXACT_POOL)))
         else:
             out.append(list(rng.choice(RARE_POOL)))
@@ -423,7 +426,7 @@ TARGETS = ["/proj/sub/deep/t.py", "/proj/sub/deep", "/proj/sub/x.py", "/proj/x.p
            "/mnt/x/t.py", "/home/u/t.py", "/", "/dev/null", "/proj/a b/t.py", "/proj/sub/deep/",
            "/proj/.pyflyby/a.py", "/proj/sub/../x.py", "/proj/db", "/mnt/t.py", "/proj/sub/x.py/under",
            "/home/u", "/proj/sub/./deep//t.py", "/devel/x.py", "/proj/sub/ü/t.py", "/proj/dev/t.py", "/dev/stdin",
-           "/proj/a b", "/proj/sub/deep/dev/null"]
+           "/proj/a b", "/proj/sub/deep/dev/null", "/dev-tools/t.py"]
 
 PP_VALUES = [None, None, "", "-", "EMPTY", "/proj/db", "/proj/db:-", "-:/proj/db", ".../.pyflyby", ".../.cfg:~/.pyflyby",
              "./rel", "~/.pyflyby", "/proj/db/a.py", "/nonexistent", "bad", "-:-", "/proj/db:/proj/db", "EMPTY:/proj/db",
@@ -510,4 +513,7 @@ def gen_world(rng, n_hist=6, allow_bad=True):
                 q = gen_query(rng, targets, pps)
             h.append(q)
         hist.append(h)
-    return {"tree": tree, "home": home, "cwd": cwd, "etc": etc, "histories": hist}
+    # one world in eight is materialised below /dev/shm (if the machine has one): every absolute target then starts
+    # with the four characters "/dev" without being a device (C12-2)
+    shm = rng.random() < 0.125
+    return {"tree": tree, "home": home, "cwd": cwd, "etc": etc, "histories": hist, "shm": shm}
